@@ -13,9 +13,9 @@ from ..common import Result, Violation
 A = lambda sh, dt="float32": ["duck", list(sh), dt]
 
 LEAFTYPES = {
-    "int": (["int"], [["lit", 1], ["lit", True], ["lit", "s"]]),
+    "int": (["int"], [["lit", 1], ["lit", 1.0], ["lit", "s"], ["lit", True]]),  # 1 == 1.0 == True, different types
     "str": (["str"], [["lit", "s"], ["lit", 1]]),
-    "tuple[int,int]": (["tuple", [["int"], ["int"]]], [["lit", 1], ["lit", "s"]]),
+    "tuple[int,int]": (["tuple", [["int"], ["int"]]], [["lit", 1], ["lit", 1.0], ["lit", "s"]]),
     "Union[int,str]": (["union", [["int"], ["str"]]], [["lit", 1], ["lit", "s"], ["lit", 1.5]]),
     "Optional[int]": (["opt", ["int"]], [["lit", 1], ["lit", "s"]]),
     "Any": (["any"], [["lit", 1], A((2,))]),
@@ -36,7 +36,7 @@ CONTEXTS = {
 def tree_family(leaves, tier):
     if tier == "quick":
         ls = leaves[:3]
-        t = trees.trees(ls, 2, [("tuple", "list", "dict", "nt", "node"), ("tuple", "dict")], 2)
+        t = trees.trees(ls, 2, [("tuple", "list", "dict", "nt", "node"), ("tuple",)], 2)
         t += trees.spine(ls[:1], 3, ("tuple", "dict"))
     else:
         t = trees.trees(leaves[:3], 2, [("tuple", "list", "dict", "nt", "node"), ("tuple", "list", "dict", "nt", "node")], 2)
@@ -146,7 +146,7 @@ def run(ctx):
         distinct_nontrivial=stats["nontrivial"],
         exhaustive=True,
         bounds="all trees of depth<=2 (arity<=2) over tuple/list/dict(reversed insertion order)/None/empty/namedtuple/registered node + spines of depth 3 (4 in thorough); "
-        "quick restricts the outer level to tuples and dicts",
+        "quick restricts the outer level to tuples",
     )
     return Result(level="model_checking", coverage=cov, violations=viols, assumptions=["reference flatten/matcher vf/refs/pytrees.py, vf/refs/leaftypes.py", "typeguard semantics of int/str/tuple/Union/Optional as read in the vendored copy"])
 
